@@ -18,6 +18,33 @@ EXPR_REWRITES = {"2.0 * t + 3.0 * u": ["3.0 * u + 2.0 * t", "t * 2.0 + u * 3.0",
 KEYS = ("semantic_id", "config_id", "node_uuids", "node_semantic_ids", "required_context_keys")
 
 
+def commuted_forms(expr):
+    """every spelling obtained by swapping the operands of any subset of the + and * nodes of the expression"""
+    import ast as _ast, itertools as _it
+    tree = _ast.parse(expr, mode="eval")
+    ops = [n for n in _ast.walk(tree) if isinstance(n, _ast.BinOp) and isinstance(n.op, (_ast.Add, _ast.Mult))]
+    out = []
+    for mask in _it.product((0, 1), repeat=len(ops)):
+        t = _ast.parse(expr, mode="eval")
+        ops_t = [n for n in _ast.walk(t) if isinstance(n, _ast.BinOp) and isinstance(n.op, (_ast.Add, _ast.Mult))]
+        for n, m in zip(ops_t, mask):
+            if m:
+                n.left, n.right = n.right, n.left
+        out.append(_ast.unparse(t))
+    return sorted(set(out) - {expr})
+
+
+def rewrite_one_expr(nodes, new_expr):
+    nodes = copy.deepcopy(nodes)
+    for n in nodes:
+        ps = (n.get("derive") or {}).get("parameter_sweep")
+        if ps:
+            for k, e in list(ps["parameters"].items()):
+                if e in EXPR_REWRITES:
+                    ps["parameters"][k] = new_expr
+    return nodes
+
+
 def rewrite_exprs(nodes, pick):
     nodes = copy.deepcopy(nodes)
     for n in nodes:
@@ -38,6 +65,13 @@ for name, nodes, ctx in idlib.base_configs():
         v = idlib.shuffle_keys(nodes, rng)
         v = rewrite_exprs(v, i) if i % 2 else v
         variants.append((f"shuffle{i}", idlib.to_yaml(v, ("block", "flow", "quoted")[i % 3])))
+    # every commuted spelling of the sweep expression (operands of any subset of its + / * nodes swapped)
+    for n_ in nodes:
+        ps_ = (n_.get("derive") or {}).get("parameter_sweep")
+        for e_ in (ps_ or {}).get("parameters", {}).values() if ps_ else ():
+            if e_ in EXPR_REWRITES:
+                for j_, form in enumerate(commuted_forms(e_)):
+                    variants.append((f"commuted{j_}:{form}", idlib.to_yaml(rewrite_one_expr(nodes, form), "block")))
     for vname, text in variants:
         evaluations += 1
         distinct.add((name, vname))
@@ -79,7 +113,7 @@ for name, nodes, ctx in idlib.base_configs():
             failures.append({"class": "fresh-process/hash-seed-changes-inspection-payload", "config": name, "seed": seed, "stderr": p.stderr[-200:]})
     if len(samples) < 2:
         samples.append({"config": name, "semantic_id": ref["semantic_id"], "config_id": ref["config_id"], "variant_yaml": variants[1][1][:300]})
-print(json.dumps({"bound": "5 base configurations (plain, identical twins, sweep source, sweep operation, sweep with two from_context variables) x key-order shuffles x 3 YAML styles x +/* operand rewrites; same-object re-run; history; 2-3 hash seeds in fresh processes",
+print(json.dumps({"bound": "5 base configurations (plain, identical twins, sweep source, sweep operation, sweep with two from_context variables) x key-order shuffles x 3 YAML styles x every commuted spelling (any subset of + / * nodes swapped) of the sweep expression; same-object re-run; history; 2-3 hash seeds in fresh processes",
                   "evaluations": evaluations, "distinct_nontrivial": len(distinct),
                   "rule": "distinct = (configuration, rewrite); every rewrite is meaning-preserving by construction, identities must be identical",
                   "failures": failures[:20], "samples": samples}, default=str))
